@@ -201,7 +201,8 @@ class ProcessDiameterMessage:
     @staticmethod
     def is_valid_host_ip_address_avp(avp, connection):
         if (avp.code == HOST_IP_ADDRESS_AVP_CODE):
-            host_ip_address = "{}.{}.{}.{}".format(int(avp.data[2]),int(avp.data[3]),int(avp.data[4]),int(avp.data[5]))
+            #: The address itself is not compared with the configured peer (see
+            #: below), so a malformed one must not be indexed into either.
             return True
             # if connection.peer_node.ip_address == host_ip_address:
             #     return True
